@@ -17,13 +17,14 @@ WORKERS = int(os.environ.get("VERIF_WORKERS", "8"))
 
 
 class Slice:
-    def __init__(self, name, terminals, ops, maxnodes, lits=(), zeros=(), idx=(10, 11), maxrank=2, maxdim=2, finalops=(), gdim=2, nenv=2, complex_env=False, small=False, simulate=None, depth=None, square_gram=(), tiny=False, levels=(), only_final=False, mikinds=("fixed", "name", "slice"), replacements=(), jets=None, geometry=None, chain=False, pipeline=None):
+    def __init__(self, name, terminals, ops, maxnodes, lits=(), zeros=(), idx=(10, 11), maxrank=2, maxdim=2, finalops=(), gdim=2, nenv=2, complex_env=False, small=False, simulate=None, depth=None, square_gram=(), tiny=False, levels=(), only_final=False, mikinds=("fixed", "name", "slice"), replacements=(), jets=None, geometry=None, chain=False, pipeline=None, zerofi=(), fixed=None):
         self.name = name
         self.terminals = terminals
         self.ops = set(ops)
         self.maxnodes = maxnodes
         self.lits = list(lits)
         self.zeros = list(zeros)
+        self.zerofi = [tuple(tuple(p) for p in z) for z in zerofi]
         self.idx = list(idx)
         self.maxrank = maxrank
         self.maxdim = maxdim
@@ -41,6 +42,7 @@ class Slice:
         self.mikinds = tuple(mikinds)
         self.replacements = list(replacements)
         self.chain = chain
+        self.fixed = dict(fixed or {})  # {terminal name: value it has in every environment} (special points of exp, ln, ...)
         self.pipeline = pipeline  # dict(options=[kwargs of compute_form_data, ...], opts={terminal: {kind:}})
         self.geometry = geometry  # dict(gdim=, tdim=, names={J,K,detJ}, identities={name: n}, opts={name: {kind:}})
         self.jets = jets  # dict(mode=, ndir=, seeds=, opts=, gateaux=) -> derivative semantics (spec/jets/CQ.tla)
@@ -102,10 +104,16 @@ def _tlc_phase(seed, sl, timeout, workers):
         pool.seed_term = j.get("seed_term")
     else:
         pool = Pool(sl.terminals, nenv=sl.nenv, seed=seed + hash_name(sl.name), complex_env=sl.complex_env, small=sl.small, square_gram=sl.square_gram, tiny=sl.tiny, geometry=sl.geometry)
+    for name, v in sl.fixed.items():
+        from .scalar import Cx as _Cx
+
+        for env in pool.values:
+            for c in env[name]:
+                env[name][c] = _Cx.of(v)
     for src, img in sl.replacements:
         pool.add_replacement(src, img)
     name = "MC_" + sl.name.replace("-", "_")
-    mc = replay.mc_module(name, pool, sl.lits, sl.zeros, sl.idx, sl.ops | sl.finalops, sl.maxnodes, sl.maxrank, sl.maxdim, sl.finalops, sl.levels, getattr(pool, "replmaps", ()))
+    mc = replay.mc_module(name, pool, sl.lits, sl.zeros, sl.idx, sl.ops | sl.finalops, sl.maxnodes, sl.maxrank, sl.maxdim, sl.finalops, sl.levels, getattr(pool, "replmaps", ()), zerofi=sl.zerofi)
     cfg = replay.mc_cfg(pool, sl.maxnodes, sl.maxrank, sl.maxdim, final_only=sl.only_final, mikinds=sl.mikinds, chain=sl.chain)
     kw = {}
     if sl.simulate:
@@ -124,7 +132,7 @@ def _replay_phase(ctx, sl, pid, pool, res, on_mismatch, accept, post=None, guard
     recs = tlc.decode_prints(res)
     if not recs:
         raise MachineryError(f"slice {sl.name}: TLC produced no behaviours")
-    w = replay.World(pool, sl.lits, sl.zeros, sl.idx, gdim=sl.gdim, embed=(sl.geometry or {}).get("gdim"))
+    w = replay.World(pool, sl.lits, sl.zeros, sl.idx, gdim=sl.gdim, embed=(sl.geometry or {}).get("gdim"), zerofi=sl.zerofi)
     w.guard_inputs = guard_inputs
     if world_hook:
         world_hook(w)
@@ -199,6 +207,7 @@ def slice_json(sl):
         "maxnodes": sl.maxnodes,
         "lits": [[n, str(v)] for n, v in sl.lits],
         "zeros": [list(z) for z in sl.zeros],
+        "zerofi": [[list(p) for p in z] for z in sl.zerofi],
         "idx": sl.idx,
         "maxrank": sl.maxrank,
         "maxdim": sl.maxdim,
@@ -223,7 +232,7 @@ def replay_doc(ctx, doc, pid):
         for n, ents in env.items():
             pool.values[e][n] = {tuple(c): _cx(v) for c, v in ents}
     lits = [(n, _parse_num(v)) for n, v in s["lits"]]
-    w = replay.World(pool, lits, [tuple(z) for z in s["zeros"]], s["idx"], gdim=s["gdim"])
+    w = replay.World(pool, lits, [tuple(z) for z in s["zeros"]], s["idx"], gdim=s["gdim"], zerofi=[tuple(tuple(p) for p in z) for z in s.get("zerofi", [])])
     status, detail = replay.compare(w, r["rec"])
     print(f"replay {pid}: {replay.prog_text(r['rec']['prog'], w)} -> {status} {detail or ''}")
     if status.startswith("mismatch"):
